@@ -464,6 +464,59 @@ fn run(ctx: &Ctx) -> Run {
         run.inconclusive(format!("two or more histories overlapped in time in only {overlapping_rounds} of {rounds} rounds"));
     }
 
+    // (2b) repeat sweep: many more distinct calls than the pool holds - exact cell corners (where the lookup's nearest-cell
+    // fallback and its tie-breaks live), random cells' geometry and hierarchy - each executed three times: in order, again in
+    // reverse order on the same thread, and in a freshly spawned thread; all three must agree bit for bit
+    let sweep = crate::report::parallel(ctx.threads, |w, r| {
+        let mut rng = Rng::stream(ctx.seed, "C13.sweep", w as u64);
+        let per = ctx.n(150_000, 4_000_000) / ctx.threads as u64;
+        let mut list: Vec<Call> = Vec::new();
+        while (list.len() as u64) < per {
+            let res = 2 + rng.below(28) as i32;
+            let c = gen::random_cell(&mut rng, res);
+            let id = encode(c);
+            match rng.below(5) {
+                0 | 1 => {
+                    if let Ok(Ok(ring)) = guard(|| a5::cell_to_boundary(id, Some(a5::core::cell::CellToBoundaryOptions { closed_ring: false, segments: Some(1) }))) {
+                        for p in ring {
+                            let r2 = (res + rng.below(3) as i32 - 1).clamp(2, MAX_RES);
+                            list.push(Call::Lookup { lon: p.longitude(), lat: p.latitude(), res: r2 });
+                        }
+                    }
+                }
+                2 => list.push(Call::CellToLonLat(id)),
+                3 => list.push(Call::Boundary { id, closed: rng.chance(0.5), segments: Some(1 + rng.below(4) as i32) }),
+                _ => {
+                    list.push(Call::Parent { id, res: Some((res - 1 - rng.below(3) as i32).max(-1)) });
+                    list.push(Call::Children { id, res: Some((res + rng.below(3) as i32).min(MAX_RES)) });
+                }
+            }
+        }
+        let first: Vec<u64> = list.iter().map(|c| c.exec().digest()).collect();
+        let second: Vec<u64> = list.iter().rev().map(|c| c.exec().digest()).collect::<Vec<_>>().into_iter().rev().collect();
+        let l2 = list.clone();
+        let third: Vec<u64> = std::thread::spawn(move || {
+            silence_panics();
+            l2.iter().map(|c| c.exec().digest()).collect()
+        })
+        .join()
+        .unwrap_or_default();
+        for (i, c) in list.iter().enumerate() {
+            r.evaluations += 3;
+            r.count("repeat_sweep.calls");
+            let ok = first[i] == second[i] && third.get(i) == Some(&first[i]);
+            if !ok {
+                r.violation(
+                    "C13.repeat",
+                    json!({"call": c.to_text()}),
+                    format!("`{}` gave different results when repeated: digests {:016x} (in order), {:016x} (reverse order, same thread), {:016x?} (fresh thread)", c.to_text(), first[i], second[i], third.get(i)),
+                );
+            }
+            r.nontrivial(mix(first[i], i as u64));
+        }
+    });
+    run.merge(sweep);
+
     // (3) first-touch processes: the one-shot global initialisations race exactly once per process
     let n_proc = ctx.n(48, 600);
     let public: Vec<(usize, &Call)> = pool.iter().enumerate().filter(|(_, c)| !matches!(c, Call::Forward { .. } | Call::Inverse { .. })).collect();
